@@ -16,6 +16,9 @@ SOUP = ['x', 'y', 'zz', '1', "'s'", '+', '-', '*', '.', ',', '(', ')', '[', ']',
         '\n\n', '\t', 'yield', '*x', 'x, y', '[x]', 'x if y else z']
 
 
+_BLINES = [None]
+
+
 def splice(src, ln, col, end_ln, end_col, text):
     lines = src.split('\n')
     head = lines[ln][:col]
@@ -25,12 +28,13 @@ def splice(src, ln, col, end_ln, end_col, text):
     return '\n'.join(lines)
 
 
-def stmt_units(tree, toks):
+def stmt_units(tree, toks, src_blines=None):
     """Innermost 'units' for the safe-domain predicate: simple statements and block headers, each with the list of its
     significant tokens [(start, end)], in source order."""
     sig = [t for t in toks if t.type not in (tokenize.NL, tokenize.NEWLINE, tokenize.INDENT, tokenize.DEDENT, tokenize.ENDMARKER, tokenize.COMMENT)]
     units = []
-    lines_b = None
+    if src_blines is None:
+        src_blines = _BLINES[0]
 
     def span_tokens(a, b):
         return [t for t in sig if t.start >= a and t.end <= b]
@@ -55,8 +59,10 @@ def stmt_units(tree, toks):
             ts = [t for t in ts if (t.start[0], t.start[1]) >= (start[0], 0)]
             units.append(('header', node, ts))
         else:
-            end = (node.end_lineno, 10 ** 9)
-            ts = [t for t in sig if t.start >= (start[0], 0) and t.end[0] <= end[0] and t.start[0] >= start[0]]
+            blines = src_blines
+            sc = len(blines[node.lineno - 1][:node.col_offset].decode()) if not getattr(node, 'decorator_list', None) else 0
+            ec = len(blines[node.end_lineno - 1][:node.end_col_offset].decode())
+            ts = [t for t in sig if t.start >= (start[0], sc) and t.end <= (node.end_lineno, ec)]
             units.append(('simple', node, ts))
     return units
 
@@ -88,6 +94,7 @@ def predicates(src, rect, want):
         P.add('whole_source')
     # innermost unit containing the rectangle strictly inside (first and last token intact)
     inside = None
+    _BLINES[0] = [l.encode() for l in src.split('\n')]
     for kind, node, ts in stmt_units(tree, toks):
         if len(ts) < 2:
             continue
@@ -152,6 +159,7 @@ class C10(Plugin):
             return None
         lines = src.split('\n')
         if safe:
+            _BLINES[0] = [l.encode() for l in src.split('\n')]
             units = [u for u in stmt_units(tree, toks) if len(u[2]) >= 2]
             if not units:
                 return None
